@@ -27,10 +27,23 @@ def describe(db, fn):
         if f.get('name') == 'index' and len(t.get('args', [])) == 2:
             base = exprtree.show(T.operand(t['args'][0]))
             r = T.operand(t['args'][1])
-            if isinstance(r, tuple) and r[0] == 'agg' and r[1].startswith('core::ops::range::Range') and 'finalize' in base:
-                s, e = r[3].get('start'), r[3].get('end')
-                if s and e and s[0] == 'val' and e[0] == 'val':
-                    ranges.append((s[1], e[1]))
+            if 'finalize' in base and isinstance(r, tuple) and r[0] == 'agg' and r[1].startswith('core::ops::range::'):
+                kind = r[1].split('::')[-1]
+                fld = r[3]
+
+                def cv(x):
+                    return x[1] if isinstance(x, tuple) and x[0] == 'val' else None
+                s_, e_ = cv(fld.get('start')), cv(fld.get('end'))
+                if kind == 'Range' and s_ is not None and e_ is not None:
+                    ranges.append((s_, e_))
+                elif kind == 'RangeFrom' and s_ is not None:
+                    ranges.append((s_, 32))
+                elif kind == 'RangeTo' and e_ is not None:
+                    ranges.append((0, e_))
+                elif kind == 'RangeInclusive' and s_ is not None and e_ is not None:
+                    ranges.append((s_, e_ + 1))
+                else:
+                    ranges.append(None)     # a digest sub-range in a form this rule cannot evaluate
     return hashers, ranges
 
 
@@ -41,6 +54,9 @@ def check_site(ctx, rep, rule, fnpath, what):
         want_h, want_r = EXPECT[hf]
         fn = db.fn(fnpath, rule)
         hashers, ranges = describe(db, fn)
+        if None in ranges:
+            rep.fail_closed(rule, f'{what} under {hf}: digest sub-range not given by constants; cannot decide which bytes are kept')
+            continue
         ok = len(hashers) == 1 and hashers[0].startswith(want_h) and (want_h != 'Blake2s' or hashers[0] == 'Blake2s256') \
             and ranges == [want_r]
         rep.ob(rule, f'{what}/{hf}', ok,
